@@ -40,6 +40,14 @@ UTILITY = {'test', 'benchmark', 'install', 'dist', 'uninstall', 'clean', 'clean-
            'clean-gcda', 'clean-gcno', 'clang-format', 'clang-format-check', 'clang-tidy', 'clang-tidy-fix'}
 UTILITY |= {'meson-internal__' + n for n in list(UTILITY)}
 
+# `meson test` / `meson test --benchmark` write their logs into meson-logs/ (Unit-tests.md): the declared side files
+# of the two utility statements that can be put in scope
+KEEP_TESTS = ('test', 'meson-internal__test', 'benchmark', 'meson-internal__benchmark')
+UTILITY_SIDE_FILES = {
+    'meson-internal__test': tuple(f'meson-logs/testlog.{x}' for x in ('txt', 'json', 'junit.xml')),
+    'meson-internal__benchmark': tuple(f'meson-logs/benchmarklog.{x}' for x in ('txt', 'json', 'junit.xml')),
+}
+
 TRACED = ('open,openat,openat2,creat,execve,execveat,rename,renameat,renameat2,unlink,unlinkat,link,linkat,symlink,'
           'symlinkat,chdir,stat,lstat,newfstatat,statx,access,faccessat,faccessat2,readlink,readlinkat,truncate')
 
@@ -47,7 +55,9 @@ TRACED = ('open,openat,openat2,creat,execve,execveat,rename,renameat,renameat2,u
 class Graph:
     """The statements in scope of one configured build directory."""
 
-    def __init__(self, build: Path, src: Path):
+    def __init__(self, build: Path, src: Path, keep: T.Collection[str] = ()):
+        """`keep`: utility statements that are in scope for this project (KEEP_TESTS: `ninja test` / `ninja benchmark`
+        must build what the tests execute and read before they run them)."""
         self.build = Path(build)
         self.src = Path(src)
         self.man = ninja_ref.parse_file(self.build / 'build.ninja')
@@ -59,7 +69,7 @@ class Graph:
             rule = self.man.rules.get(e.rule)
             if e.rule == 'REGENERATE_BUILD' or (rule is not None and 'generator' in rule.bindings):
                 continue
-            if e.all_outs() and all(o in UTILITY for o in e.all_outs()):
+            if e.all_outs() and all(o in UTILITY for o in e.all_outs()) and not any(o in keep for o in e.all_outs()):
                 continue
             if e.is_phony and not e.all_ins():
                 always.update(e.all_outs())
@@ -101,6 +111,8 @@ class Graph:
                     v = e.get(var)
                     if v:
                         side.append(ninja_ref.canonicalize(v))
+                for o in e.all_outs():
+                    side.extend(UTILITY_SIDE_FILES.get(o, ()))
             self.aux.append(side)
 
     # -- helpers ----------------------------------------------------------------
